@@ -35,6 +35,7 @@ class Engine(StmtMixin, LoopMixin, CallMixin, Expr2Mixin, ExprMixin, EngineBase)
         self.terminals: List = []
         self._psums: Dict = {}
         self.last_sorted = self.last_groupby = self.last_argm = None
+        self.ghost_sites_hit = set()
 
     # ------------------------------------------------------------------ prefix sums
     def num_kind(self, k):
@@ -54,9 +55,12 @@ class Engine(StmtMixin, LoopMixin, CallMixin, Expr2Mixin, ExprMixin, EngineBase)
             xt = elem_term(x)
         srt = z3.IntSort() if z3.is_int(xt) else z3.RealSort()
         Pf = z3.Function(fresh_name(f"Pf_{field or 'elem'}"), z3.IntSort(), srt)
+        pats = [Pf(t + 1)]
+        if l.arrs:
+            pats.append(z3.Select(l.arrs[0], t))      # mentioning element t also unfolds the recurrence at t
         self.add_background(('pf', key), z3.And(Pf(0) == 0,
                                                  z3.ForAll([t], z3.Implies(t >= 0, Pf(t + 1) == Pf(t) + xt),
-                                                           patterns=[Pf(t + 1)])))
+                                                           patterns=pats)))
         self._psums[key] = Pf
         return Pf
 
